@@ -49,11 +49,11 @@ pub struct ScriptLine {
 
 impl ScriptLine {
     pub fn next(rng: &mut Rng) -> ScriptLine {
-        let raw = rng.pick(&["n", "next", "N", "NEXT", " next ", "Next", "n  "]).to_string();
+        let raw = rng.pick(&["n", "next", "N", "NEXT", " next ", "Next", "n  ", "\u{a0}n", "next\u{3000}", "\x0bn\x0c", "\u{2003}NEXT\u{85}"]).to_string();
         ScriptLine { raw, newline: true, cls: "next", what: None }
     }
     pub fn quit(rng: &mut Rng) -> ScriptLine {
-        ScriptLine { raw: rng.pick(&["q", "quit", "Q", "QUIT", " quit"]).to_string(), newline: true, cls: "quit", what: None }
+        ScriptLine { raw: rng.pick(&["q", "quit", "Q", "QUIT", " quit", "q\u{a0}", "\u{3000}quit\x0b"]).to_string(), newline: true, cls: "quit", what: None }
     }
     pub fn garbage(rng: &mut Rng) -> ScriptLine {
         let raw = rng.pick(&["", "x", "nn", "nextt", "print", "print regs", "print mem", "print mem 1 ->", "step", "mov ax, 1", "print mem 5 : ", "?", "quit now", "print flag", "1", "print reg reg"]).to_string();
@@ -112,14 +112,18 @@ pub struct Layout {
     pub force: Option<Spelling>,
     /// lines end in CR LF (a source written on Windows)
     pub crlf: bool,
+    /// some instructions are written on two lines (white space includes the line end); they are cited by their first line
+    pub split: bool,
+    /// every instruction that can be written on two lines is
+    pub split_every: bool,
 }
 
 impl Layout {
     pub fn plain() -> Layout {
-        Layout { blank: 0, comment: 0, indent: false, trailing_newline: true, label_same_line: false, brace_same_line: false, vary_spelling: false, force: None, crlf: false }
+        Layout { blank: 0, comment: 0, indent: false, trailing_newline: true, label_same_line: false, brace_same_line: false, vary_spelling: false, force: None, crlf: false, split: false, split_every: false }
     }
     pub fn random(rng: &mut Rng) -> Layout {
-        Layout { blank: rng.below(4), comment: rng.below(4), indent: rng.chance(1, 2), trailing_newline: rng.chance(3, 4), label_same_line: rng.chance(1, 3), brace_same_line: rng.chance(1, 4), vary_spelling: rng.chance(1, 2), force: None, crlf: rng.chance(1, 5) }
+        Layout { blank: rng.below(4), comment: rng.below(4), indent: rng.chance(1, 2), trailing_newline: rng.chance(3, 4), label_same_line: rng.chance(1, 3), brace_same_line: rng.chance(1, 4), vary_spelling: rng.chance(1, 2), force: None, crlf: rng.chance(1, 5), split: rng.chance(1, 4), split_every: false }
     }
 }
 
@@ -162,6 +166,9 @@ impl<'a> Renderer<'a> {
     }
     /// push one source line carrying code; returns (1-based line number, text of the line without comment)
     fn code_line(&mut self, code: &str) -> (usize, String) {
+        self.code_line2(code, true)
+    }
+    fn code_line2(&mut self, code: &str, splittable: bool) -> (usize, String) {
         self.filler();
         let mut text = String::new();
         if self.lay.indent && self.rng.chance(1, 2) {
@@ -174,7 +181,21 @@ impl<'a> Renderer<'a> {
             text.push_str(&l);
             text.push_str(": ");
         }
-        text.push_str(code);
+        // an instruction on two lines: the break comes after the first comma, or after the first word (a REP prefix, a
+        // mnemonic).  Messages and prompts cite the line the instruction starts on, and show that line.
+        let mut second: Option<String> = None;
+        if splittable && (self.lay.split_every || (self.lay.split && self.rng.chance(1, 3))) {
+            let cut = code.find(',').map(|k| k + 1).or_else(|| code.find(|c: char| c == ' ' || c == '\t'));
+            if let Some(k) = cut {
+                if k > 0 && k < code.len() && !code[k..].trim().is_empty() {
+                    second = Some(code[k..].trim_start().to_string());
+                    text.push_str(code[..k].trim_end());
+                }
+            }
+        }
+        if second.is_none() {
+            text.push_str(code);
+        }
         let mut full = text.clone();
         if self.rng.below(8) < self.lay.comment {
             if self.rng.chance(1, 2) {
@@ -188,7 +209,11 @@ impl<'a> Renderer<'a> {
         if let Some((l, col)) = pending_def {
             self.defs.push((l, self.lines.len(), String::new(), col));
         }
-        (self.lines.len(), text)
+        let first_line = self.lines.len();
+        if let Some(rest) = second {
+            self.lines.push(rest);
+        }
+        (first_line, text)
     }
     fn flush_label(&mut self) {
         if let Some(l) = self.pending_label.take() {
@@ -222,7 +247,7 @@ impl<'a> Renderer<'a> {
                 Item::Bad(ins, needle) => {
                     let sp = self.sp();
                     let code = ins.to_src(&sp);
-                    let (line, text) = self.code_line(&code);
+                    let (line, text) = self.code_line2(&code, false);
                     let col: i64 = if needle.is_empty() { -1 } else {
                         let ndl = match sp.case { Case::Upper if needle.chars().all(|c| c.is_ascii_alphabetic()) => needle.to_ascii_uppercase(), _ => needle.clone() };
                         text.find(&ndl).map(|x| x as i64).unwrap_or(-1)
